@@ -51,7 +51,8 @@ def probes():
     return ["gen_wrote_output", "gen_refused_without_writing", "gen_refused_existing_output", "existing_output_is_torso",
             "import_inference_on", "prepend", "imports_from_file", "multi_entry_input", "json_input", "phase_1_or_2",
             "fault_fired", "crash_fired", "user_deleted_output", "i4_checked", "existing_output_spelled_tilde",
-            "existing_output_spelled_relative", "mixed_kind_input"] + ["wrote_emit_" + e for e in
+            "existing_output_spelled_relative", "mixed_kind_input", "user_created_empty_output",
+            "phase_with_phaseless_emit_on_existing"] + ["wrote_emit_" + e for e in
                                                                                   ("class", "argparse", "sqlalchemy",
                                                                                    "sqlalchemy_table", "json_schema")]
 
@@ -103,7 +104,7 @@ def plans(draw):
     ent = draw(entries())
     steps = [draw(gen_step(ent["kind"]))]
     for _ in range(draw(st.integers(0, 3))):
-        k = draw(st.sampled_from(("gen", "gen", "delete", "phase", "restart")))
+        k = draw(st.sampled_from(("gen", "gen", "delete", "phase", "restart", "touch", "phase_any")))
         if k == "gen":
             steps.append(draw(gen_step(ent["kind"])))
         elif k == "phase":
@@ -111,6 +112,12 @@ def plans(draw):
                           "parse": "infer", "tpl": "{name}Gen", "infer_imports": False, "prepend": False,
                           "imports_from_file": False, "no_word_wrap": False, "phase": draw(st.sampled_from((1, 2))),
                           "fault": None})
+        elif k == "phase_any":
+            # --phase N with an emit kind that has no phases: must not switch the non-clobbering guard off
+            st_ = draw(gen_step(ent["kind"]))
+            st_["phase"] = draw(st.sampled_from((1, 2, 3)))
+            st_["fault"] = None
+            steps.append(st_)
         else:
             steps.append({"op": k})
     return {"entries": ent, "steps": steps, "black": True}
@@ -356,6 +363,14 @@ def simulate(plan):
                 concrete["steps"].append(stp)
                 history.append({"op": "restart"})
                 continue
+            if stp["op"] == "touch":
+                # the user (or an editor) left an EMPTY file at the output path
+                if not world.exists("out.py"):
+                    world.write_files({"out.py": ""})
+                    bump(probe, "user_created_empty_output")
+                concrete["steps"].append(stp)
+                history.append({"op": "touch"})
+                continue
             if stp["op"] == "delete":
                 if world.exists("out.py"):
                     world.remove("out.py")
@@ -406,8 +421,11 @@ def simulate(plan):
                                   "sig": {"what": "other_path_opened_for_writing", "site": e.get("site")}})
                     break
             # I6 — always: existing output at phase 0 must be refused and untouched
-            if existed and not stp.get("phase"):
+            sa_emit = stp["emit"] in ("sqlalchemy", "sqlalchemy_table", "sqlalchemy_hybrid")
+            if existed and (not stp.get("phase") or not sa_emit):
                 bump(probe, "gen_refused_existing_output" if not o.ok else "gen_on_existing_returned")
+                if stp.get("phase"):
+                    bump(probe, "phase_with_phaseless_emit_on_existing")
                 if stp.get("spelling") == "tilde":
                     bump(probe, "existing_output_spelled_tilde")
                 elif stp.get("spelling") in ("rel", "dotslash"):
@@ -420,7 +438,8 @@ def simulate(plan):
                                                             "open(s)" % (o.kind, "changed" if "out.py" in modified + deleted
                                                                          else "unchanged", len(wopen)),
                                   "sig": {"what": "overwrote_or_accepted_existing", "returned": o.ok,
-                                          "changed": "out.py" in modified + deleted}})
+                                          "changed": "out.py" in modified + deleted,
+                                          "phase_given": bool(stp.get("phase"))}})
             elif o.ok and not o.fired and not stp.get("phase"):
                 text = world.read("out.py")
                 if text is None:
